@@ -871,11 +871,12 @@ class DFA:
         if isinstance(chained_dfa.starting_state, DFProxyState):
             # Add an extra state that will represent the condition point properly (see docs for equivalent_on_values)
             valid, to_else = chained_dfa.starting_state.equivalent_on_values()
-            nothing_follows = not valid and not to_else and isinstance(chained_dfa.starting_state, DFConditionPoint)
-            if nothing_follows:
+            # a condition point has no symbols of its own: it is always entered through the extra state
+            is_condition_point = isinstance(chained_dfa.starting_state, DFConditionPoint)
+            if is_condition_point and not valid and not to_else:
                 # nothing follows the condition point yet (e.g. it ends a loop body): every symbol continues into it
                 valid = {DFTransition.Else}
-            if valid and (to_else or nothing_follows):
+            if valid and (to_else or is_condition_point):
                 fake_start = DFState()
                 chained_dfa.add(fake_start)
 
